@@ -69,11 +69,13 @@ def main():
             return rc_all, outs[-1500:]
         if not demos:
             return None, "no demo"
+        # a demonstration goes next to the code it tests: package main = the constants generator, else package pfcpiface
+        pkg = "cmd/p4info_code_gen" if any("package main" in open(d, errors="replace").read()[:3000] for d in demos) else "pfcpiface"
         for d in demos:
-            shutil.copy(d, os.path.join(wt, "pfcpiface", os.path.basename(d)))
-        rc, out = sh(["go", "test", "-vet=off", "-count=1", "-run", "Seed|Demo|seed|demo", "./pfcpiface/"], wt, env)
+            shutil.copy(d, os.path.join(wt, pkg, os.path.basename(d)))
+        rc, out = sh(["go", "test", "-vet=off", "-count=1", "-run", "Seed|Demo|seed|demo", "./" + pkg + "/"], wt, env)
         for d in demos:
-            os.remove(os.path.join(wt, "pfcpiface", os.path.basename(d)))
+            os.remove(os.path.join(wt, pkg, os.path.basename(d)))
         return rc, out[-1500:]
 
     if not a.skip_demo:
